@@ -304,10 +304,12 @@ def mx_dir_rule(c: str) -> bool:
     """the pattern rule that creates output directories: run for the sentinel of directory d/<c>
     (resp. <c>), its recipe creates exactly that directory and touches exactly that sentinel
     pre: len(c) == N and _comp_ok(c) and _in_scope(c, EXCL) and SHAPE != 2 and ROOTI == 0
-    pre: not (KF_QUOTE and chr(39) in c) and not (param('kf_wsrun', False) and _ws_run(c))
-    pre: c.startswith(param('cprefix', ''))
+    pre: not (KF_QUOTE and chr(39) in c)
+    pre: not (param('kf_wsrun', False) and _ws_run(param('cprefix', '') + c))
     post: _
     """
+    # cprefix: fixed beginning of the component (the symbolic part follows it)
+    c = param('cprefix', '') + c
     mk = Makefile('build.bfg')
     mwriter.directory_rule(None, mk, _DEnv())
     rule = mk._rules[-1]
